@@ -183,7 +183,9 @@ fn gen_cfg(_prop: &str, _tier: Tier, run_seed: u64) -> Value {
         1 => 512,
         _ => 2048,
     };
-    json!({ "big": r.chance(1, 2), "max_ops": r.range(10, 80), "max_size": max_size })
+    // swarm: every run scales the eleven operation-class weights by its own factors (0 = class absent)
+    let swarm: Vec<u32> = (0..11).map(|_| *r.pick(&[0u32, 1, 1, 1, 2, 4])).collect();
+    json!({ "big": r.chance(1, 2), "max_ops": r.range(10, 80), "max_size": max_size, "swarm": swarm })
 }
 
 fn shrink_cfg(_cfg: &Value) -> Vec<Value> {
@@ -300,7 +302,7 @@ fn gen_string(r: &mut Rng) -> String {
     r.pick(STRINGS).to_string()
 }
 
-fn gen_op(r: &mut Rng, w: &World, prop: &str, max_size: usize) -> Op {
+fn gen_op(r: &mut Rng, w: &World, prop: &str, max_size: usize, swarm: &[u32]) -> Op {
     let size = w.m.size();
     if size == 0 && r.chance(9, 10) {
         if max_size > 96 {
@@ -316,6 +318,17 @@ fn gen_op(r: &mut Rng, w: &World, prop: &str, max_size: usize) -> Op {
     } else {
         [6, 12, 5, 8, 12, 14, 9, 14, 14, 3, 1]
     };
+    let mut wts = wts;
+    for (i, f) in swarm.iter().enumerate().take(11) {
+        wts[i] *= f;
+    }
+    // the property's own operation classes never vanish
+    if c3 {
+        wts[0] = wts[0].max(10);
+    } else {
+        wts[4] = wts[4].max(4);
+        wts[5] = wts[5].max(4);
+    }
     match r.weighted(&wts) {
         0 => {
             let big = size > max_size;
@@ -1463,6 +1476,7 @@ fn run(cfg: &Value, ctx: &mut RunCtx) -> Step<()> {
     ctx.max_ops = cfg["max_ops"].as_u64().unwrap_or(40) as usize;
     let prop = ctx.prop.clone();
     let max_size = cfg["max_size"].as_u64().unwrap_or(96) as usize;
+    let swarm: Vec<u32> = cfg["swarm"].as_array().map(|a| a.iter().map(|x| x.as_u64().unwrap_or(1) as u32).collect()).unwrap_or_else(|| vec![1; 11]);
     let mut w = World {
         a: BinArchive::new(endian(big)),
         m: ArchModel::new(big),
@@ -1474,7 +1488,7 @@ fn run(cfg: &Value, ctx: &mut RunCtx) -> Step<()> {
     };
     let mut rng = Rng::sub(ctx.run_seed, "ops");
     loop {
-        let op = ctx.next_op(|_c| Some(gen_op(&mut rng, &w, &prop, max_size)))?;
+        let op = ctx.next_op(|_c| Some(gen_op(&mut rng, &w, &prop, max_size, &swarm)))?;
         let op: Op = match op {
             Some(o) => o,
             None => break,
